@@ -16,7 +16,9 @@
   independently be one that raises / cannot be serialised, so a "fault plan" is any such input and
   the first fault in program order is the one that fires.
 -/
+import ASV.Model.PosixPath
 namespace ASV.WriteSafety
+open ASV.PosixPath (Path)
 
 /-- Python exception class name; `write_to_file` intercepts exactly `TypeError` -/
 abbrev Exn := String
@@ -107,13 +109,51 @@ end
 
 /-! ### results, records, events -/
 
-/-- one value of a record's `{module name: results}` dictionary -/
+/-- a value of the wrong type sitting in a record's results dictionary (typically raw JSON left
+    over from `--reuse-results` for a module that was never regenerated); `n` = number of items -/
+inductive Raw where
+  | dict (n : Nat)
+  | list (n : Nat)
+  | str (s : String)
+  | int (n : Int)
+  | bool (b : Bool)
+deriving Repr, Inhabited, DecidableEq
+
+/-- Python truthiness, `bool(value)` -/
+def Raw.truthy : Raw → Bool
+  | .dict n => n != 0
+  | .list n => n != 0
+  | .str s => s != ""
+  | .int n => n != 0
+  | .bool b => b
+
+/-- one value of a record's `{module name: results}` dictionary.  `truthy` is `bool(obj)` of a
+    `ModuleResults` object (classes with `__len__` are falsy when empty); the unchanged code never
+    consults it, which is the point of carrying it -/
 inductive ModSpec where
-  | none                  -- `None`: skipped (`continue`)
-  | mod (v : PyVal)       -- a `ModuleResults` whose `to_json()` returns `v`
-  | raises (e : Exn)      -- a `ModuleResults` whose `to_json()` raises `e`
-  | invalid               -- neither (e.g. a raw dict left from reused results): `TypeError`
+  | none                                 -- `None`: skipped (`continue`)
+  | mod (truthy : Bool) (v : PyVal)      -- a `ModuleResults` whose `to_json()` returns `v`
+  | raises (truthy : Bool) (e : Exn)     -- a `ModuleResults` whose `to_json()` raises `e`
+  | invalid (raw : Raw)                  -- neither: `TypeError`, whatever its value
 deriving Repr, Inhabited
+
+/-- `m_results is None` — the skip test of `dump_records` -/
+def ModSpec.isNone : ModSpec → Bool
+  | .none => true
+  | _ => false
+
+/-- `isinstance(m_results, ModuleResults)` -/
+def ModSpec.isModuleResults : ModSpec → Bool
+  | .mod _ _ => true
+  | .raises _ _ => true
+  | _ => false
+
+/-- `bool(m_results)` -/
+def ModSpec.truthy : ModSpec → Bool
+  | .none => false
+  | .mod t _ => t
+  | .raises t _ => t
+  | .invalid raw => raw.truthy
 
 /-- a secmet record: only whether its own conversion (`to_biopython`, `record_to_json`, …) raises -/
 structure RecSpec where
@@ -137,6 +177,7 @@ inductive Ev where
   | write (name : String)    -- `handle.write`
   | remove (name : String)   -- `os.remove`
   | mkdir                    -- `os.mkdir(output_dir)`
+  | mkdirSub (name : String) -- `os.mkdir` of a directory inside the output directory
   | prepared                 -- `prepare_output_directory` returned
   | annotated                -- `annotate_records` called
   | outputsWritten           -- `write_outputs` called
@@ -147,17 +188,20 @@ structure Res (α : Type) where
   trace : List Ev
   out : Except Exn α
 
-/-- `for module, m_results in result.items()` — `j` counts dictionary entries, `None` included -/
+/-- `for module, m_results in result.items()` — `j` counts dictionary entries, `None` included:
+    `if m_results is None: continue`; `if isinstance(m_results, ModuleResults): modules[module] =
+    m_results.to_json()`; `else: raise TypeError` -/
 def convertModules (i : Nat) : Nat → ModDict → Res (List (String × PyVal))
   | _, [] => ⟨[], .ok []⟩
   | j, (name, m) :: rest =>
-    match m with
-    | .none => convertModules i (j + 1) rest
-    | .mod v =>
-      let r := convertModules i (j + 1) rest
-      ⟨.modConv i j :: r.trace, match r.out with | .ok ms => .ok ((name, v) :: ms) | .error e => .error e⟩
-    | .raises e => ⟨[.modConv i j], .error e⟩
-    | .invalid => ⟨[], .error typeError⟩
+    if m.isNone then convertModules i (j + 1) rest
+    else
+      match m with
+      | .mod _ v =>
+        let r := convertModules i (j + 1) rest
+        ⟨.modConv i j :: r.trace, match r.out with | .ok ms => .ok ((name, v) :: ms) | .error e => .error e⟩
+      | .raises _ e => ⟨[.modConv i j], .error e⟩
+      | _ => ⟨[], .error typeError⟩
 
 /-- `for i, secmet in enumerate(secmet_records): result = results[i]; …` -/
 def convertRecords : Nat → List RecSpec → List ModDict → Res (List (List (String × PyVal)))
@@ -284,14 +328,24 @@ structure PrepIn where
   target : Target
   /-- the `input_file` argument (sequence file, or the results file being reused) -/
   inputFile : String
-  /-- `some n`: `config.logfile` is the entry `n` of this directory -/
-  logName : Option String
+  /-- `os.getcwd()` -/
+  cwd : String
+  /-- the `name` argument: the output directory as given (non-empty) -/
+  name : String
+  /-- `config.logfile` (`""` when no log file was requested) -/
+  logfile : String
 deriving Repr, Inhabited
 
-/-- `_ignore_patterns(entry)`: `True` means "this entry counts as other files" -/
-def ignorePatterns (logName : Option String) (e : Entry) : Bool :=
-  if e.name == "input" && e.isDir then false
-  else if logName == some e.name then false
+/-- `os.path.join(name, entry)` for a directory entry -/
+def entryPath (p : PrepIn) (e : Entry) : Path := PosixPath.join p.name.toList e.name.toList
+
+/-- `_ignore_patterns(entry)`: `True` means "this entry counts as other files".
+    `entry.endswith('/input') and os.path.isdir(entry)`, then — only when a log file is configured —
+    `os.path.abspath(entry) == os.path.abspath(config.logfile)` -/
+def ignorePatterns (p : PrepIn) (e : Entry) : Bool :=
+  if "/input".toList.isSuffixOf (entryPath p e) && e.isDir then false
+  else if p.logfile != "" &&
+      PosixPath.abspath p.cwd.toList (entryPath p e) == PosixPath.abspath p.cwd.toList p.logfile.toList then false
   else true
 
 /-- `glob` pattern `*.region???.gbk` on one file name (hidden names never match a `*`) -/
@@ -316,7 +370,7 @@ def prepareOutputDir (p : PrepIn) : PrepOut :=
   | .absent => ⟨[.mkdir], Option.none, .dir []⟩
   | .file => ⟨[], some inputError, .file⟩
   | .dir es =>
-    if !reuseMode p && !(es.filter (ignorePatterns p.logName)).isEmpty then
+    if !reuseMode p && !(es.filter (ignorePatterns p)).isEmpty then
       ⟨[], some inputError, .dir es⟩
     else
       ⟨(es.filter fun e => isRegionGbk e.name).map (fun e => .remove e.name), Option.none,
@@ -343,5 +397,170 @@ def runPipeline (p : PipeIn) : PrepOut :=
     | Option.none => ⟨a.trace ++ .prepared :: w.trace ++ [.annotated, .outputsWritten], Option.none, .dir w.dir⟩
   | Option.none, t => ⟨a.trace, Option.none, t⟩   -- unreachable: acceptance always yields a directory
   | some e, t => ⟨a.trace, some e, t⟩
+
+
+/-! ### results that come back from a results file (`--reuse-results`) -/
+
+/-- what `AntismashResults.from_file` puts into `results` for a module whose `to_json()` value was
+    `v`: the raw JSON value — a dict, list, string, number or boolean, i.e. *not* a `ModuleResults` —
+    or `None` for JSON `null` -/
+def jsonShape : PyVal → ModSpec
+  | .none => .none
+  | .bool b => .invalid (.bool b)
+  | .int n => .invalid (.int n)
+  | .str s => .invalid (.str s)
+  | .list xs => .invalid (.list xs.length)
+  | .dict kvs => .invalid (.dict kvs.length)
+  | .seq s => .invalid (.str s)
+  | .seqConv s _ => .invalid (.str s)
+  | .conv v => jsonShape v
+  | .convRaises _ => .invalid (.dict 0)
+  | .dunder v => jsonShape v
+  | .dunderRaises _ => .invalid (.dict 0)
+  | .both v _ => jsonShape v
+  | .opaque => .invalid (.dict 0)
+
+/-- one record's `modules` as read back: entries that were skipped when writing are not there -/
+def reloadDict : ModDict → ModDict
+  | [] => []
+  | (k, .mod _ v) :: rest => (k, jsonShape v) :: reloadDict rest
+  | _ :: rest => reloadDict rest
+
+/-- `read_data` in reuse mode on a file written from `r` (fault-free): plain records, raw module
+    values, timings cleared — what the run holds if no module regenerates its results -/
+def reload (r : Results) : Results :=
+  ⟨(r.results.take r.records.length).map fun _ => ⟨Option.none⟩,
+   (r.results.take r.records.length).map reloadDict, .dict []⟩
+
+/-! ### option handling around the two functions: derived names -/
+
+/-- the options these functions read and (through `update_config`) write -/
+structure Options where
+  /-- `--output-basename`, `""` when not given; filled in by the first `canonical_base_filename` -/
+  outputBasename : String
+  /-- `--output-dir`; filled in by `prepare_output_directory` when empty -/
+  outputDir : String
+  /-- `--logfile` -/
+  logfile : String
+deriving Repr, Inhabited, DecidableEq
+
+/-- `ext.lower() in (".gz", ".bz", ".xz")` -/
+def isCompressionExt (ext : Path) : Bool :=
+  let l := ext.map Char.toLower
+  l == ".gz".toList || l == ".bz".toList || l == ".xz".toList
+
+/-- `canonical_base_filename(input_file, directory, options)`: the option if set, else the input's
+    base name without its extension (two extensions for compressed input), remembered in the options -/
+def canonicalBaseFilename (inputFile directory : String) (o : Options) : String × Options :=
+  if o.outputBasename != "" then
+    (String.ofList (PosixPath.join directory.toList o.outputBasename.toList), o)
+  else
+    let se := PosixPath.splitext (PosixPath.basename inputFile.toList)
+    let base := if isCompressionExt se.2 then (PosixPath.splitext se.1).1 else se.1
+    (String.ofList (PosixPath.join directory.toList base), { o with outputBasename := String.ofList base })
+
+/-- `prepare_output_directory(name, input_file)` as it is called -/
+structure CallIn where
+  /-- what exists at the output directory's (effective) path -/
+  target : Target
+  inputFile : String
+  cwd : String
+  /-- the `name` argument, possibly empty -/
+  nameArg : String
+  opts : Options
+deriving Repr, Inhabited
+
+/-- the head of `prepare_output_directory`: `input_prefix = basename(canonical_base_filename(input_file,
+    "", config))`; `if not name: name = abspath(input_prefix); update_config(output_dir=name)` -/
+def effective (c : CallIn) : PrepIn × Options :=
+  let cb := canonicalBaseFilename c.inputFile "" c.opts
+  let inputPrefix := PosixPath.basename cb.1.toList
+  if c.nameArg == "" then
+    let name := String.ofList (PosixPath.abspath c.cwd.toList inputPrefix)
+    (⟨c.target, c.inputFile, c.cwd, name, cb.2.logfile⟩, { cb.2 with outputDir := name })
+  else
+    (⟨c.target, c.inputFile, c.cwd, c.nameArg, cb.2.logfile⟩, cb.2)
+
+/-- `prepare_output_directory` from its first line -/
+def prepareCall (c : CallIn) : PrepOut × Options :=
+  (prepareOutputDir (effective c).1, (effective c).2)
+
+/-- `_run_antismash` from `prepare_output_directory` on, names derived as the code derives them -/
+structure RunIn where
+  call : CallIn
+  results : Results
+  /-- `results.input_file` -/
+  resultsInputFile : String
+deriving Repr, Inhabited
+
+/-- `json_filename = canonical_base_filename(results.input_file, options.output_dir, options) + ".json"`,
+    as a name inside the output directory -/
+def RunIn.jsonName (r : RunIn) : String :=
+  let o := (effective r.call).2
+  String.ofList (PosixPath.basename (canonicalBaseFilename r.resultsInputFile o.outputDir o).1.toList) ++ ".json"
+
+def RunIn.toPipe (r : RunIn) : PipeIn := ⟨(effective r.call).1, r.results, r.jsonName⟩
+
+def runTail (r : RunIn) : PrepOut := runPipeline r.toPipe
+
+
+/-! ### `run_antismash`: logging is set up before anything else -/
+
+/-- where `config.logfile` lies with respect to the output directory -/
+inductive LogPlace where
+  | nowhere                 -- no log file, or one outside the output directory
+  | entry (m : String)      -- directly inside it, under the name `m`
+  | below (s : String)      -- further down, inside its subdirectory `s`
+deriving Repr, Inhabited, DecidableEq
+
+/-- `some rest` when `l = pre ++ rest` -/
+def stripPrefix : List Path → List Path → Option (List Path)
+  | [], l => some l
+  | _ :: _, [] => Option.none
+  | a :: as, b :: bs => if a == b then stripPrefix as bs else Option.none
+
+/-- the (lexical) identity of a path, as `abspath` computes it: kept leading slashes and components -/
+def pathId (cwd q : Path) : Nat × List Path :=
+  (PosixPath.leadSlashes (PosixPath.absArg cwd q),
+   PosixPath.normComps true (PosixPath.splitSlash (PosixPath.absArg cwd q)))
+
+def logPlace (p : PrepIn) : LogPlace :=
+  if p.logfile == "" then .nowhere
+  else
+    let a := pathId p.cwd.toList p.name.toList
+    let l := pathId p.cwd.toList p.logfile.toList
+    if a.1 != l.1 then .nowhere
+    else
+      match stripPrefix a.2 l.2 with
+      | some [m] => .entry (String.ofList m)
+      | some (s :: _ :: _) => .below (String.ofList s)
+      | _ => .nowhere
+
+/-- what the log file holds once the run has logged something (the text itself is not modelled) -/
+def logText : Tok := .raw "<log>"
+
+/-- `logs.changed_logging(logfile=…)`: `os.makedirs(dirname(logfile))` if missing, then
+    `logging.FileHandler(logfile)` (append mode: created if missing); every run logs at least its
+    version line.  Only effects inside the output directory are modelled. -/
+def setupLogging (place : LogPlace) (t : Target) : Target × List Ev :=
+  match place, t with
+  | .entry m, .absent => (.dir [⟨m, false, [logText]⟩], [.mkdir])
+  | .entry m, .dir es =>
+    if es.any (fun e => e.name == m) then
+      (.dir (es.map fun e => if e.name == m then { e with content := e.content ++ [logText] } else e), [])
+    else (.dir (es ++ [⟨m, false, [logText]⟩]), [])
+  | .below s, .absent => (.dir [⟨s, true, []⟩], [.mkdir, .mkdirSub s])
+  | .below s, .dir es =>
+    if es.any (fun e => e.name == s) then (.dir es, []) else (.dir (es ++ [⟨s, true, []⟩]), [.mkdirSub s])
+  | _, t => (t, [])
+
+/-- `run_antismash`: `with changed_logging(...)`: `_run_antismash`; an `AntismashInputError` is logged
+    and re-raised, anything else passes through -/
+def runAntismash (r : RunIn) : PrepOut :=
+  let p := (effective r.call).1
+  let s := setupLogging (logPlace p) p.target
+  let r' : RunIn := { r with call := { r.call with target := s.1 } }
+  let out := runTail r'
+  ⟨s.2 ++ out.trace ++ (if out.err == some inputError then [.logErr] else []), out.err, out.target⟩
 
 end ASV.WriteSafety
